@@ -108,6 +108,14 @@ theorem step_list (xs : List Val) (st : LStep) (hg : Good xs) (ha : admissibleL 
       · exact Or.inl h
       · exact Or.inr (fun p hp => notMissing_of_val (h p hp))
 
+/-- Decidable form of `Good` (for concrete witnesses). -/
+def goodB (xs : List Val) : Bool := xs.all (fun x => !x.isMissing && missingFree x)
+
+theorem good_of_goodB {xs : List Val} (h : goodB xs = true) : Good xs := by
+  intro x hx
+  simp only [goodB, List.all_eq_true, Bool.and_eq_true, Bool.not_eq_true'] at h
+  exact h x hx
+
 /-! ### Preservation of the list invariant by the Spec step -/
 
 /-- No nested `MISSING` in any element (elements themselves may be the marker). -/
